@@ -117,6 +117,7 @@ class Contract:
     local_types: Dict[str, Ty] = field(default_factory=dict)  # declared types of locals that start as untyped empties (set(), dict(), OrderedDict())
     fresh_result: bool = False  # the returned object is newly allocated (proved as an obligation, used for distinctness at call sites)
     init_fields: Optional[Callable] = None  # __init__ contracts: (ctx) -> {field: initial value}; used for parallel allocation
+    init_frame: bool = False  # constructors: "only the new object's entries of the `modifies` fields change" -- an obligation of the body, a fact at call sites
     body_select: Optional[Callable] = None  # region contract: (FunctionDef) -> the statements (a suffix of the real body) that are executed; the parameters are
     #                                         then the values of the same-named variables at the region's entry, constrained by `requires`
 
@@ -400,7 +401,12 @@ def apply_contract(eng: Engine, st: State, c: Contract, args: List[V], kwargs: D
     # havoc what the callee may modify
     for key in c.modifies:
         hf = eng.heap_field(cur, key[0], key[1])
+        old_parts = list(hf.parts)
         hf.parts = [z3.Const(fresh_name("H_%s_%s_c" % key), p.sort()) for p in hf.parts]
+        if c.is_init and c.init_frame:
+            o = z3.Int(fresh_name("o"))
+            for (pn, po) in zip(hf.parts, old_parts):
+                cur.assume(z3.ForAll([o], z3.Implies(o != params["self"].z, pn[o] == po[o]), patterns=[pn[o]]))
     facts: List[Any] = []
     if c.is_init:
         res: V = params["self"]
@@ -562,6 +568,13 @@ def generate_vcs(reg: Registry, c: Contract, S: Optional[Sorts] = None) -> Tuple
             if c.ensures:
                 for (nm, f) in c.ensures(ctx):
                     vcs.append(VC("%s.%s" % (c.key, nm), f, list(s2.pc), pathname, 0, dict(params, __result__=result)))
+            if c.is_init and c.init_frame and not raised:
+                o = z3.Int(fresh_name("o"))
+                fr = []
+                for key in c.modifies:
+                    for (pn, po) in zip(ctx.heap_parts(key[0], key[1]), ctx.heap_parts(key[0], key[1], old=True)):
+                        fr.append(z3.ForAll([o], z3.Implies(o != params["self"].z, pn[o] == po[o])))
+                vcs.append(VC("%s.constructor-writes-only-the-new-object's-fields" % c.key, z3.And(*fr) if fr else z3.BoolVal(True), list(s2.pc), pathname, 0, dict(params)))
             if c.fresh_result and not raised and isinstance(result, VScalar) and result.ty.kind == "obj":
                 al0 = old_ghost.get("alloc", z3.Const("alloc0", z3.ArraySort(z3.IntSort(), z3.BoolSort())))
                 vcs.append(VC("%s.result-is-a-new-object" % c.key, z3.Not(al0[result.z]), list(s2.pc), pathname, 0, dict(params, __result__=result)))
